@@ -323,6 +323,22 @@ def main():
         if os.path.exists(kp):
             for line in open(kp):
                 knownlines.append(json.loads(line))
+        if pcfg.get("variant") == "race" and "WARNING: DATA RACE" in logtxt:
+            reports = logtxt.split("WARNING: DATA RACE")[1:]
+            real = []
+            for rep in reports:
+                body = rep.split("==================")[0]
+                frames = re.findall(r"^\s+(/\S+\.go):\d+", body, re.M)
+                np_frames = [f for f in frames if "/repo/" in f and "zz_verif_" not in f]
+                if np_frames:
+                    real.append(body)
+            if real:
+                shard_viol = [{"property": prop, "slot": "race", "signature": "data-race", "shard": s,
+                               "message": "the race detector reported %d race(s) involving netpoll code; first: %s" % (len(real), " ".join(real[0].split())[:700]),
+                               "replay": {"race_reports": [r[:6000] for r in real[:3]]}}]
+                violations.extend(shard_viol)
+            else:
+                infra.append("race reports whose stacks lie only in harness files (see %s)" % os.path.join(sdir, "log.txt"))
         if p.returncode != 0 and not shard_viol:
             # the process died without recording a violation
             crash = re.search(r"^(panic: .*|fatal error: .*)$", logtxt, re.M)
